@@ -6,7 +6,7 @@
    space ([product] of the extents, resp. REQUIRED-SPAN-SIZE for layout_stride) is representable in
    the index type.  Model functions (Model.v) on the left, closed forms (Spec.v) on the right. *)
 From Tetl Require Import Lib.Base C19.Slices C19.Model C19.Spec C19.ProofsArith C19.ProofsExt C19.ProofsSpec
-  C19.ProofsLayout C19.ProofsMore C19.ProofsSpan C19.ProofsEnum C19.ProofsTop C19.ProofsSub C19.ProofsBuf C19.ProofsSpan2.
+  C19.ProofsLayout C19.ProofsMore C19.ProofsSpan C19.ProofsEnum C19.ProofsTop C19.ProofsSub C19.ProofsBuf C19.ProofsSpan2 C19.ProofsCanon.
 From Coq Require Import Permutation.
 Local Open Scope Z_scope.
 
@@ -193,6 +193,13 @@ Theorem C19_layout_stride_injective : forall t e ss idx idx', wf_ity t -> wf_ext
   strided_map t (strided_ctor t e ss) idx = strided_map t (strided_ctor t e ss) idx' -> idx = idx'.
 Proof. exact strided_map_injective. Qed.
 Print Assumptions C19_layout_stride_injective.
+
+(* the uniqueness condition is met by the strides of the contiguous layouts for every shape without a zero
+   extent: layout_right's strides are already ordered, layout_left's in reverse *)
+Theorem C19_contiguous_strides_unique : forall xs, Forall (fun x => 0 < x) xs ->
+  unique_strides xs (strides_right xs) /\ unique_strides xs (strides_left xs).
+Proof. exact canonical_strides_unique. Qed.
+Print Assumptions C19_contiguous_strides_unique.
 
 (* a layout_stride mapping constructed from the strides of a layout_left / layout_right mapping is that mapping
    (same strides, same offsets, for every argument) *)
